@@ -29,7 +29,9 @@ def run_property(prop, tier):
     # 1. the code under test, rebuilt from /repo's working tree
     builds = plan.get("builds", ("std",))
     if plan.get("families") or plan.get("custom"):
-        B.build_recorders(builds)
+        # always all three: families and custom engines name their own builds, and a stale recorder would
+        # silently test yesterday's code
+        B.build_recorders(BUILDS)
 
     # 2. the design: bounded model checking with TLC
     for mc in plan.get("mc", []):
